@@ -3,6 +3,9 @@
 pub struct SeqIter<X> { pub items: Vec<X> }
 pub struct ZipIter2<X, Y> { pub items: Vec<(X, Y)> }
 pub struct MapIter<B> { pub items: Vec<B> }
+// what `.zip(..)` accepts: an iterator (already a SeqIter) or a collection that iterates over references to its elements
+pub trait IntoSeqIter { type Item; spec fn seq_items(self) -> Seq<Self::Item>; }
+impl<Y> IntoSeqIter for SeqIter<Y> { type Item = Y; open spec fn seq_items(self) -> Seq<Y> { self.items@ } }
 pub trait VerifIter<'a> {
     type Item;
     spec fn items_spec(&'a self) -> Seq<Self::Item>;
@@ -15,12 +18,12 @@ impl<'a, T: 'a> VerifIter<'a> for Vec<T> {
     fn verif_iter(&'a self) -> (r: SeqIter<&'a T>) { unimplemented!() }
 }
 impl<X> SeqIter<X> {
-    // Iterator::zip: position by position, as long as both last
+    // Iterator::zip (with any IntoIterator): position by position, as long as both last
     #[verifier::external_body]
-    pub fn zip<Y>(self, other: SeqIter<Y>) -> (r: ZipIter2<X, Y>)
+    pub fn zip<Z: IntoSeqIter>(self, other: Z) -> (r: ZipIter2<X, Z::Item>)
         ensures
-            r.items@.len() == (if self.items@.len() <= other.items@.len() { self.items@.len() } else { other.items@.len() }),
-            forall|k: int| 0 <= k < r.items@.len() ==> #[trigger] r.items@[k] == (self.items@[k], other.items@[k]),
+            r.items@.len() == (if self.items@.len() <= other.seq_items().len() { self.items@.len() } else { other.seq_items().len() }),
+            forall|k: int| 0 <= k < r.items@.len() ==> #[trigger] r.items@[k] == (self.items@[k], other.seq_items()[k]),
     { unimplemented!() }
     // Iterator::map with a one-argument function
     #[verifier::external_body]
@@ -63,5 +66,14 @@ impl<X> SeqIter<X> {
     #[verifier::external_body]
     pub fn rev(self) -> (r: SeqIter<X>)
         ensures r.items@ == self.items@.reverse()
+    { unimplemented!() }
+}
+impl<X, Y> ZipIter2<X, Y> {
+    // Iterator::fold over pairs, left to right; the closure's pattern `|acc, (x, y)|` is written with three parameters (R9)
+    #[verifier::external_body]
+    pub fn fold<B, F: FnMut(B, X, Y) -> B>(self, init: B, f: F) -> (r: B)
+        requires forall|acc: B, k: int| 0 <= k < self.items@.len() ==> #[trigger] call_requires(f, (acc, self.items@[k].0, self.items@[k].1))
+        ensures exists|accs: Seq<B>| #[trigger] accs.len() == self.items@.len() + 1 && accs[0] == init && accs[self.items@.len() as int] == r
+            && forall|k: int| 0 <= k < self.items@.len() ==> call_ensures(f, (#[trigger] accs[k], self.items@[k].0, self.items@[k].1), accs[k + 1])
     { unimplemented!() }
 }
